@@ -12,7 +12,6 @@ import (
 	"net"
 	"strconv"
 	"unicode/utf16"
-	"unicode/utf8"
 	"regexp"
 	"errors"
 	"strings"
@@ -97,22 +96,15 @@ func Bmp2Png(BmpBytes []byte) []byte {
 }
 
 func DecodeUTF16(b []byte) string {
-	var (
-		u16s  = make([]uint16, 1)
-		b8buf = make([]byte, 4)
-		ret   = &bytes.Buffer{}
-	)
+	// decode the whole sequence at once so that surrogate pairs survive;
+	// a dangling odd byte cannot be part of a code unit and is ignored
+	var u16s = make([]uint16, 0, len(b)/2)
 
-	lb := len(b)
-
-	for i := 0; i < lb; i += 2 {
-		u16s[0] = uint16(b[i]) + (uint16(b[i+1]) << 8)
-		r := utf16.Decode(u16s)
-		n := utf8.EncodeRune(b8buf, r[0])
-		ret.Write(b8buf[:n])
+	for i := 0; i+1 < len(b); i += 2 {
+		u16s = append(u16s, uint16(b[i])+(uint16(b[i+1])<<8))
 	}
 
-	return ret.String()
+	return string(utf16.Decode(u16s))
 }
 
 func EncodeUTF16(s string) []byte {
